@@ -1,9 +1,8 @@
 /-
-Helper lemmas for C01–C03 over M-PICO.
+Helper lemmas for C01–C03 over M-PICO (collected).
 -/
 import IsoVerif.Model.Pico
 import IsoVerif.Model.PicoSpec
-
-namespace IsoVerif.Pico
-
-end IsoVerif.Pico
+import IsoVerif.Lemmas.PicoBasic
+import IsoVerif.Lemmas.PicoStage1
+import IsoVerif.Lemmas.PicoRerun
